@@ -63,12 +63,17 @@ def run(ctx):
     decs = [(bi, s) for bi, s in dec if 'Sub' in fmt_desc(describe_operand(c, {'c': {'l': ends[0]}})) or True]
     shrink = []
     for bi, s in dec:
-      d = fmt_desc(describe_operand(c, s['rv']['o'])) if s['rv']['k'] == 'use' else s['rv']['k']
+      if s['rv']['k'] == 'use':
+        d = fmt_desc(describe_operand(c, s['rv']['o']))
+      elif s['rv']['k'] == 'bin' and s['rv']['op'].startswith('Sub'):
+        d = 'Sub(' + fmt_desc(describe_operand(c, s['rv']['a'])) + ',' + fmt_desc(describe_operand(c, s['rv']['b'])) + ')'  # release-like MIR: no overflow-check temporary
+      else:
+        d = s['rv']['k']
       if d.startswith('Sub('):
         shrink.append((bi, s, d))
     inits = [d for d in c.defs().get(ends[0], []) if d['kind'] == 'call' and not d['proj']] if ends else []
     ctx.ob('R32.3', c.n, '`end` starts as bytes.len()', len(inits) == 1 and inits[0]['call'].is_('re:::len$'), f'{inits}', where(c, c.line))
-    ctx.ob('R32.3', c.n, 'exactly one shrinking assignment to `end` (end - 1)', len(shrink) == 1 and len(dec) == 1, f'{[(bi, fmt_desc(describe_operand(c, s["rv"].get("o", {})))) for bi, s in dec]}', where(c, c.line))
+    ctx.ob('R32.3', c.n, 'exactly one shrinking assignment to `end` (end - 1)', len(shrink) == 1 and len(dec) == 1, f'{len(dec)} assignments', where(c, c.line))
     for bi, s, d in shrink:
       gs = guard_strings(c, bi)
       okf = 'Gt(end,0)==True' in gs and any(re.match(r'^Eq\(num::to_le_bytes\(self\.0\)\.\[\],0\)==True$', g) for g in gs)
